@@ -384,10 +384,36 @@ type fnSpec struct {
 }
 
 type xlate struct {
-	spec *fnSpec
-	lets map[string]string
-	err  error
+	spec     *fnSpec
+	lets     map[string]string
+	err      error
+	recvName string // the receiver's name in the function being translated
+	rename   map[string]string // actual receiver / parameter name -> canonical name
 }
+
+// canon rewrites the head of a selector path (`tbl.startKey` -> `t.startKey`) to the canonical name.
+func (x *xlate) canon(s string) string {
+	head, rest, _ := strings.Cut(s, ".")
+	if c, ok := x.rename[head]; ok {
+		if rest == "" {
+			return c
+		}
+		return c + "." + rest
+	}
+	return s
+}
+
+// canonical names the `idents` tables are written in: the receiver per type and the parameters per function, by
+// position, so that renaming a receiver or a parameter in the source does not take a function out of the whitelist
+var canonRecv = map[string]string{"KeyGroupRange": "r", "Table": "t"}
+var canonParams = map[string][]string{
+	"Overlaps": {"other"}, "Contains": {"other"}, "IncludesKeyGroup": {"kg"}, "IndexOf": {"kg"},
+	"RangeContainsKey": {"key"}, "RangeKeyCompare": {"key"}, "RangeContainsPrefix": {"prefix"}, "RangePrefixCompare": {"prefix"},
+	"keepNewest": {"a", "b"}, "AscendingEntries": {"a", "b"},
+}
+
+// recvArgs: the Lean arguments that stand for the receiver in the generated signature of a whitelisted method.
+var recvArgs = map[string]string{"KeyGroupRange": "r", "Table": "startKey endKey"}
 
 func (x *xlate) fail(format string, a ...any) string {
 	if x.err == nil {
@@ -413,7 +439,7 @@ func (x *xlate) expr(e ast.Expr) string {
 		if v, ok := x.lets[s]; ok {
 			return v
 		}
-		if v, ok := x.spec.idents[s]; ok {
+		if v, ok := x.spec.idents[x.canon(s)]; ok {
 			return v
 		}
 		if v, ok := litVal(e); ok {
@@ -458,8 +484,23 @@ func (x *xlate) expr(e ast.Expr) string {
 				return "(Bytes.hasPrefix " + x.expr(n.Args[0]) + " " + x.expr(n.Args[1]) + ")"
 			}
 		}
-		if v, ok := x.spec.idents[fn+"()"]; ok && len(n.Args) == 0 {
+		if v, ok := x.spec.idents[x.canon(fn)+"()"]; ok && len(n.Args) == 0 {
 			return v
+		}
+		// a call of another whitelisted method on the same receiver: use its generated definition
+		if sel, ok := n.Fun.(*ast.SelectorExpr); ok && x.recvName != "" && selName(sel.X) == x.recvName {
+			for i := range fnSpecs {
+				sp := &fnSpecs[i]
+				if sp.recv == x.spec.recv && sp.recv != "" && sp.name == sel.Sel.Name && sp.leanName != x.spec.leanName {
+					if ra, ok := recvArgs[sp.recv]; ok {
+						args := ""
+						for _, a := range n.Args {
+							args += " " + x.expr(a)
+						}
+						return "(" + sp.leanName + " " + ra + args + ")"
+					}
+				}
+			}
 		}
 		return x.fail("call %s", fn)
 	}
@@ -492,6 +533,42 @@ func (x *xlate) body(stmts []ast.Stmt) string {
 			return x.expr(s.Results[0])
 		}
 		return x.fail("return form")
+	case *ast.SwitchStmt:
+		// tagless `switch { case c1, c2: return a … default: return d }` = an if-chain
+		if s.Init != nil || s.Tag != nil {
+			return x.fail("switch with tag or init")
+		}
+		out := ""
+		var deflt *ast.CaseClause
+		for _, c := range s.Body.List {
+			cc, ok := c.(*ast.CaseClause)
+			if !ok {
+				return x.fail("switch clause")
+			}
+			if cc.List == nil {
+				deflt = cc
+				continue
+			}
+			if len(cc.Body) != 1 {
+				return x.fail("switch case body")
+			}
+			r, ok := cc.Body[0].(*ast.ReturnStmt)
+			if !ok || len(r.Results) != 1 {
+				return x.fail("switch case body")
+			}
+			cond := x.expr(cc.List[0])
+			for _, e := range cc.List[1:] {
+				cond = "(" + cond + " || " + x.expr(e) + ")"
+			}
+			out += "if " + cond + " then " + x.expr(r.Results[0]) + " else "
+		}
+		if deflt != nil {
+			if len(stmts) != 1 {
+				return x.fail("statements after a switch with default")
+			}
+			return out + x.body(deflt.Body)
+		}
+		return out + x.body(stmts[1:])
 	}
 	return x.fail("statement %T", stmts[0])
 }
@@ -532,15 +609,66 @@ func main() {
 		fmt.Fprintf(&fb, "def %s : Nat := %s\n", n, fc.vals[n])
 	}
 	fb.WriteString("end Rxn.Facts\n")
-	if len(problems) == 0 {
-		// on a problem the last good generated files are kept, so the model still compiles and the
-		// differential search can look for a concrete failing input
-		writeIfChanged(filepath.Join(*out, "Facts.lean"), fb.String())
+	_ = fb
+	// A fact that could not be re-derived keeps its last good value (so the model still compiles, the problem is
+	// attributed to its name, and ./check decides by fall-back correspondence or reports a broken obligation);
+	// every other fact is refreshed from the current source even then.
+	{
+		oldVals := map[string]string{}
+		if b, err := os.ReadFile(filepath.Join(*out, "Facts.lean")); err == nil {
+			for _, line := range strings.Split(string(b), "\n") {
+				var n, v string
+				if _, err := fmt.Sscanf(line, "def %s : Nat := %s", &n, &v); err == nil {
+					oldVals[n] = v
+				}
+			}
+		}
+		merged := map[string]string{}
+		for n, v := range oldVals {
+			merged[n] = v
+		}
+		for _, n := range fc.names {
+			merged[n] = fc.vals[n]
+		}
+		if len(problems) == 0 {
+			merged = map[string]string{}
+			for _, n := range fc.names {
+				merged[n] = fc.vals[n]
+			}
+		}
+		var names []string
+		for n := range merged {
+			names = append(names, n)
+		}
+		sort.Strings(names)
+		var mb strings.Builder
+		mb.WriteString("-- GENERATED by tools/gofacts from /repo sources on every check run. Do not edit.\nnamespace Rxn.Facts\n")
+		for _, n := range names {
+			fmt.Fprintf(&mb, "def %s : Nat := %s\n", n, merged[n])
+		}
+		mb.WriteString("end Rxn.Facts\n")
+		writeIfChanged(filepath.Join(*out, "Facts.lean"), mb.String())
 	}
 
 	var sb strings.Builder
-	sb.WriteString("-- GENERATED by tools/gofacts from /repo sources on every check run. Do not edit.\nimport RxnModel.Base.Types\nnamespace Rxn.Gen\nopen Rxn\n\n")
+	sb.WriteString("-- GENERATED by tools/gofacts from /repo sources on every check run. Do not edit.\n-- Fresh translations of the whitelisted one-line functions. The models and proofs use the stable forms in\n-- Generated/Fns.lean (namespace Rxn.Gen); Generated/Tie/<name>.lean proves `Gen.f = GenSrc.f` on every run.\nimport RxnModel.Base.Types\nnamespace Rxn.GenSrc\nopen Rxn\n\n")
 	files := map[string]*ast.File{}
+	oldBlocks := map[string]string{} // lean name -> last good "/-- … -/\ndef …" block
+	if b, err := os.ReadFile(filepath.Join(*out, "FnsSrc.lean")); err == nil {
+		for _, blk := range strings.Split(string(b), "\n\n") {
+			if i := strings.Index(blk, "\ndef "); i >= 0 && strings.HasPrefix(blk, "/--") {
+				name := strings.Fields(blk[i+5:])[0]
+				oldBlocks[name] = blk
+			}
+		}
+	}
+	fnProblems := 0
+	keepOld := func(sp *fnSpec) {
+		fnProblems++
+		if blk, ok := oldBlocks[sp.leanName]; ok {
+			sb.WriteString(blk + "\n\n")
+		}
+	}
 	for i := range fnSpecs {
 		sp := &fnSpecs[i]
 		curGroup = "fn:" + sp.leanName
@@ -553,19 +681,54 @@ func main() {
 		fn := findFunc(f, sp.recv, sp.name)
 		if fn == nil || fn.Body == nil {
 			problem("function %s.%s not found in %s", sp.recv, sp.name, sp.file)
+			keepOld(sp)
 			continue
 		}
 		x := &xlate{spec: sp, lets: map[string]string{}}
+		x.rename = map[string]string{}
+		if fn.Recv != nil && len(fn.Recv.List) == 1 && len(fn.Recv.List[0].Names) == 1 {
+			x.recvName = fn.Recv.List[0].Names[0].Name
+			if c, ok := canonRecv[sp.recv]; ok {
+				x.rename[x.recvName] = c
+			}
+		}
+		if cp, ok := canonParams[sp.name]; ok && fn.Type.Params != nil {
+			i := 0
+			for _, f := range fn.Type.Params.List {
+				for _, nm := range f.Names {
+					if i < len(cp) {
+						x.rename[nm.Name] = cp[i]
+					}
+					i++
+				}
+			}
+		}
 		body := x.body(fn.Body.List)
 		if x.err != nil {
 			problem("%s.%s no longer translatable: %v", sp.recv, sp.name, x.err)
+			keepOld(sp)
 			continue
 		}
 		fmt.Fprintf(&sb, "/-- `%s.%s` (%s) -/\ndef %s %s :=\n  %s\n\n", sp.recv, sp.name, sp.file, sp.leanName, sp.leanSig, body)
 	}
-	sb.WriteString("end Rxn.Gen\n")
-	if len(problems) == 0 {
-		writeIfChanged(filepath.Join(*out, "Fns.lean"), sb.String())
+	sb.WriteString("end Rxn.GenSrc\n")
+	writeIfChanged(filepath.Join(*out, "FnsSrc.lean"), sb.String())
+	// one tie module per function: the stable form used by models and proofs equals the fresh translation
+	os.MkdirAll(filepath.Join(*out, "Tie"), 0o755)
+	var allNames []string
+	for i := range fnSpecs {
+		allNames = append(allNames, "Gen."+fnSpecs[i].leanName, "GenSrc."+fnSpecs[i].leanName)
+	}
+	for i := range fnSpecs {
+		sp := &fnSpecs[i]
+		binders, args := tieBinders(sp.leanSig)
+		var tb strings.Builder
+		tb.WriteString("-- GENERATED by tools/gofacts on every check run. Do not edit.\nimport RxnModel.Generated.Fns\nimport RxnModel.Generated.FnsSrc\nopen Rxn\n\n")
+		fmt.Fprintf(&tb, "/-- the stable form of `%s.%s` that the models and proofs use is what the source says now -/\n", sp.recv, sp.name)
+		fmt.Fprintf(&tb, "theorem Rxn.GenTie.%s %s : Gen.%s %s = GenSrc.%s %s := by\n", sp.leanName, binders, sp.leanName, args, sp.leanName, args)
+		fmt.Fprintf(&tb, "  try simp only [%s]\n", strings.Join(allNames, ", "))
+		tb.WriteString("  all_goals (first | rfl | grind [cmpInt_cases] | (split <;> simp_all <;> omega))\n")
+		writeIfChanged(filepath.Join(*out, "Tie", sp.leanName+".lean"), tb.String())
 	}
 	if len(problems) == 0 {
 		// which group defines which Lean names (kept from the last good run; used to attribute later problems)
@@ -582,6 +745,47 @@ func main() {
 		}
 		os.Exit(3)
 	}
+}
+
+// tieBinders splits a generated signature "(r o : KGRange) (kg : Nat) : Bool" into its binder part and the
+// explicit argument names "r o kg".
+func tieBinders(sig string) (binders, args string) {
+	depth, cut := 0, len(sig)
+	for i, c := range sig {
+		switch c {
+		case '(', '{':
+			depth++
+		case ')', '}':
+			depth--
+		case ':':
+			if depth == 0 {
+				cut = i
+			}
+		}
+		if cut != len(sig) {
+			break
+		}
+	}
+	binders = strings.TrimSpace(sig[:cut])
+	var names []string
+	rest := binders
+	for {
+		i := strings.Index(rest, "(")
+		if i < 0 {
+			break
+		}
+		j := strings.Index(rest[i:], ":")
+		if j < 0 {
+			break
+		}
+		names = append(names, strings.Fields(rest[i+1:i+j])...)
+		k := strings.Index(rest[i:], ")")
+		if k < 0 {
+			break
+		}
+		rest = rest[i+k+1:]
+	}
+	return binders, strings.Join(names, " ")
 }
 
 func writeIfChanged(path, content string) {
